@@ -55,6 +55,8 @@ type chanV struct {
 	cap    int
 	closed bool
 	id     int
+	sent   int64 // unbuffered rendezvous: values put / values taken
+	recvd  int64
 }
 
 type bad struct{}
